@@ -144,6 +144,7 @@ CONSTANTS
     UpgraderSem = "drop"
     Reloads = {}
     IOFaults = TRUE
+    CallerWait = "forever"
     MaxCalls = 1
     Kinds = {"auth", "update", "add", "remove", "setadmin", "list"}
     InitFiles <- MCInit1
